@@ -18,7 +18,7 @@ ERR = {'InvalidStrategy': 'InvalidStrategy', 'InsufficientMargin': 'Insufficient
 
 def gen_session(rng, max_n=180, allow_two=True, fast=None, kinds=('futures', 'futures', 'spot'), isolated=None,
                 tfs=('1m', '1m', '3m', '5m', '15m'), data=True, leverage=None, rich=True, tight=False, vol=4, gap_prob=0.2,
-                lengths=None):
+                lengths=None, force=None):
     nsym = rng.choice([1, 1, 2]) if allow_two else 1
     syms = SYMS[:nsym]
     routes = [(s, rng.choice(tfs)) for s in syms]
@@ -30,13 +30,20 @@ def gen_session(rng, max_n=180, allow_two=True, fast=None, kinds=('futures', 'fu
                     droutes.append((s, tf))
     kind = rng.choice(kinds)
     n = rng.choice(lengths or [30, 45, 60, 90, 120, max_n])
+    scripts = {s: engine.gen_script(rng, spot=kind == 'spot', rich=rich, tight=tight, force=force) for s in syms}
+    # a third of the strategies read candles of a larger timeframe of their symbol (trading or data route) and only
+    # enter while its last candle closed up: the trace then depends on what get_candles() returns
+    for s in syms:
+        tfs = sorted({TFM[tf] for (x, tf) in routes + droutes if x == s and tf != '1m'})
+        if tfs and rng.random() < 0.35:
+            scripts[s]['gate'] = rng.choice(tfs)
     return {
         'kind': kind, 'balance': 100_000, 'fee': rng.choice([0, 0, 1 / 1024, 1 / 512]),
         'leverage': leverage if leverage is not None else rng.choice([1, 2, 5, 10]),
         'isolated': (rng.random() < 0.3) if isolated is None else isolated,
         'fast': (rng.random() < 0.5) if fast is None else fast,
         'syms': syms, 'routes': routes, 'droutes': droutes, 'n': n,
-        'scripts': {s: engine.gen_script(rng, spot=kind == 'spot', rich=rich, tight=tight) for s in syms},
+        'scripts': scripts,
         'vol': vol, 'gap_prob': gap_prob,
         'candle_seed': rng.randrange(1 << 30),
     }
@@ -74,7 +81,8 @@ def script_w(s):
                      '-' if s.get('cancel_after') is None else str(s['cancel_after']),
                      opt_rows(oo.get('sl')), opt_rows(oo.get('tp')),
                      '-' if not u else str(u['every']), opt(u.get('sl')), opt(u.get('tp')),
-                     opt(r.get('sl')), '-' if s.get('liquidate_at') is None else str(s['liquidate_at'])])
+                     opt(r.get('sl')), '-' if s.get('liquidate_at') is None else str(s['liquidate_at']),
+                     '-' if s.get('gate') is None else str(s['gate'])])
 
 
 def session_line(sess, cands):
@@ -110,7 +118,7 @@ def run_real(sess, cands, extra_observer=None):
             flush(tr)
         if hook in HOOKS:
             events.append(f'HOOK {ridx[strategy.symbol]} {hook} {strategy.index} {purecorr.num(strategy.price)} '
-                          f'{purecorr.num(strategy.position.qty)}')
+                          f'{purecorr.num(strategy.position.qty)} {purecorr.num(strategy.position.pnl)}')
             etimes.append(int(strategy.time))
         if extra_observer:
             extra_observer(strategy, hook, order)
@@ -173,6 +181,21 @@ def norm(s):
     return s
 
 
+def float_boundary(sess, cands, tr):
+    """True when some order price of the real run is within float rounding of, but not equal to, a candle value"""
+    import numpy as np
+    import engoracles
+    for k, o in engoracles.order_table(tr).items():
+        p = o['price']
+        if p is None:
+            continue
+        arr = cands[o['sym']][:, 1:5]
+        d = np.abs(arr - float(p))
+        if np.any((d > 0) & (d < 1e-9 * max(1.0, abs(float(p))))):
+            return True
+    return False
+
+
 def compare_sessions(res, sessions, cls='corr/engine'):
     lines, reals = [], []
     for sess in sessions:
@@ -205,6 +228,12 @@ def compare_sessions(res, sessions, cls='corr/engine'):
             i = min(len(model), len(ev))
             # after an exception the model stops at REJECT; the real trace also ends there
             bad = (i, model[i] if i < len(model) else '<end>', ev[i] if i < len(ev) else '<end>')
+        if bad and float_boundary(sess, candles_of(sess), tr):
+            # an order price that differs from a candle's open/high/low/close by float rounding only (e.g. an average
+            # entry of decimal sizes): the fill decision at that boundary is a float artefact, not a model difference
+            res.discarded += 1
+            res.count('discarded:float-boundary-price')
+            continue
         if bad:
             i, a, b = bad
             res.fail(**{'class': cls + ('/fast' if sess['fast'] else '/step'), 'input': desc,
